@@ -69,6 +69,9 @@ RULES = [
     # R7 (generic one-liners)
     ('R7a', 'X.try_into().unwrap() -> X.try_into_unwrap_()  (prelude trait with the overflow precondition)',
      re.compile(r'\.try_into\(\)\.unwrap\(\)'), '.try_into_unwrap_()'),
+    ('R7c', 'RoaringBitmap::from_sorted_iter(Some(x)).unwrap() / RoaringBitmap::from_iter([x]) -> RoaringBitmap::singleton_(x)',
+     re.compile(r'RoaringBitmap::from_sorted_iter\(Some\(([\w.]+)\)\)\.unwrap\(\)|RoaringBitmap::from_iter\(\[([\w.]+)\]\)'),
+     lambda m: 'RoaringBitmap::singleton_(%s)' % (m.group(1) or m.group(2))),
     ('R7b', 'X.map(Some) -> X.map_some_()', re.compile(r'\.map\(Some\)'), '.map_some_()'),
     # (R2 retired: heed's remap_* type-state is modelled natively by DatabaseG<DC: DataCodec>)
     ('R2', 'NodeCodec<D> -> NodeCodec (codec marker of the uninterpreted metric)', re.compile(r'\bNodeCodec<(?:D|ND)>'), 'NodeCodec'),
@@ -266,10 +269,10 @@ def parse_template(path, units_dir):
                         i += 1
                     b.substs.append(('\n'.join(old), '\n'.join(new), cnt)); cur = None
                 elif ln.startswith('//@hint '):
-                    m = re.match(r'//@hint (after|before) <<<(.*)>>>\s*$', ln)
+                    m = re.match(r'//@hint (after|before)(?:#(\d+))? <<<(.*)>>>\s*$', ln)
                     if not m:
                         raise ExtractError('%s: bad hint line: %s' % (path, ln))
-                    h = [m.group(1), m.group(2), []]
+                    h = [m.group(1) + ('#' + m.group(2) if m.group(2) else ''), m.group(3), []]
                     b.hints.append(h); cur = h[2]
                 elif ln.startswith('//@'):
                     raise ExtractError('%s: unknown directive %s' % (path, ln))
@@ -354,7 +357,24 @@ def extract_block(b: Block, snapshot: str):
         fired['subst'] = fired.get('subst', 0) + cnt
     # hints
     for where, anchor, lines in b.hints:
+        nth = None
+        if '#' in where:
+            where, nth = where.split('#')
+            nth = int(nth)
         c = text.count(anchor)
+        if nth is not None and c >= nth:
+            p = -1
+            for _ in range(nth):
+                p = text.find(anchor, p + 1)
+            ins = '\n'.join(lines) + '\n'
+            if where == 'after':
+                e = text.find('\n', p + len(anchor))
+                e = len(text) if e < 0 else e + 1
+                text = text[:e] + ins + text[e:]
+            else:
+                sl = text.rfind('\n', 0, p) + 1
+                text = text[:sl] + ins + text[sl:]
+            continue
         if c != 1:
             # proof hints are optional: without its anchor the hint is dropped; if the function then fails the
             # failure is reported as UNDECIDED (the proof script no longer applies), not as a violation
